@@ -289,6 +289,13 @@ def main():
     for ident in SHAPESETS:
         run.add("%s_shapeset.h==shapesets.py" % ident, "post", ob_shapeset, ident)
     run.add("bempp_base_types.h::constants", "table", ob_constants)
+    if run.tier == "thorough":
+        # trusted-base reduction shared by every kernel property (C01-C08, C20): the compiled Numba functions agree with the source the proofs are about
+        from vlib import jitdiff
+
+        run.add("numba-compiled-kernels==their-python-source", "bounded", jitdiff.ob_jit_vs_source)
+        run.add("numba-compiled-assembly==interpreted-assembly", "bounded", jitdiff.ob_assemblers_jit_vs_source)
+        run.bound("JIT differential: every function of the regular / singular kernel tables, 5 random columns, real / complex / purely imaginary parameters, 1e-12")
     run.functions["bempp_cl/core/sources/include/kernels.h"] = {"sha256_16": __import__("vlib.framework", fromlist=["src_hash"]).src_hash(os.path.join(INC, "kernels.h")),
                                                                   "dropped": "comments, preprocessor lines, qualifiers; vector types evaluated on one generic lane"}
     run.assume("OpenCL builtins sqrt rsqrt cos sin exp dot length distance compute the real functions; vector operators are element-wise")
